@@ -207,8 +207,8 @@ func descList(m [][]byte) string {
 func c29NoPanic(t ev.TB, r *ev.Rec, what string, f func()) {
 	defer func() {
 		if x := recover(); x != nil {
-			if r.Failed() {
-				panic(x) // a violation already reported through t.Fatalf (rapid unwinds by panicking)
+			if ev.IsRapidUnwind(x) {
+				panic(x) // rapid's own unwinding (a violation already reported through t.Fatalf, invalid data), not a panic of the code
 			}
 
 			r.Violation(t, "panic", "%s panicked: %v", what, x)
